@@ -102,6 +102,17 @@ class JSONData(ABC):
         """
         return self._data
 
+    def __eq__(self, other):
+        """
+        Two data objects of the same kind are equal when they carry the same JSON content
+        """
+        if not isinstance(other, self.__class__):
+            return False
+        return self.data == other.data
+
+    def __hash__(self):
+        return hash(json.dumps(self.data, sort_keys=True))
+
     def __str__(self):
         return str(self._data)
 
